@@ -338,7 +338,13 @@ func vC10RunLookupCap(t *testing.T, c *vh.Case, sc vC10Scenario) {
 		outcome = fmt.Sprintf("addrs=%d", len(pi.Addrs))
 	case "getvalue":
 		var val []byte
-		val, opErr = n.D.GetValue(lctx, key)
+		// every second value search runs with an explicit quorum of 1 or 2: sequences of well-formed, diverging
+		// records (better, stale, equal) then reach the quorum / abort paths of the search as well
+		if c.Idx%2 == 0 {
+			val, opErr = n.D.GetValue(lctx, key, Quorum(1+(c.Idx/2)%2))
+		} else {
+			val, opErr = n.D.GetValue(lctx, key)
+		}
 		if opErr == nil {
 			c.Check(legal[string(val)] && !illegal[string(val)], "value-from-own-key-record", "GetValue(%q) returned %q, which no reply carried in a record for that key (sent under another key or keyless: %v)", key, val, illegal[string(val)])
 		} else {
